@@ -51,7 +51,10 @@
   11. a wider fragment `Tame2` (every time group is a `GoodGroup2`: a population may be split or joined after
       another population was joined into it; chains of two joins): `applyParams_sem2`, `fromMs_sem2`,
       `fromMs_sem2_plain`; exact on the table of all groups of at most two `-es`/`-ej` options over three
-      populations (`tame2_exact_on_table`).
+      populations (`tame2_exact_on_table`);
+  12. a third fragment `Tame3` (every time group is a `GoodGroup3`: every move goes out of a population that existed
+      before the group, no population joined in the group receives lineages in it) — it contains the chains of pulses
+      `to_ms` prints: `applyParams_sem3`, `fromMs_moves3`, `fromMs_sem3`, `fromMs_sem3_plain`.
 -/
 import DemesVerif.Proofs.FromMsValid
 import DemesVerif.Proofs.FromMsIgnores
@@ -64,6 +67,8 @@ import DemesVerif.Proofs.FromMsApplyFinal
 import DemesVerif.Proofs.FromMsZeroRun
 import DemesVerif.Proofs.FromMsWideRun
 import DemesVerif.Proofs.FromMsWideTable
+import DemesVerif.Proofs.FromMsFrag3Run
+import DemesVerif.Proofs.FromMsFrag3Table
 namespace Demes.Theorems.C08
 open Demes Demes.Ms Demes.Spec Demes.Spec.MsSem Demes.Spec.C08
 
@@ -1214,12 +1219,165 @@ command order).  With three options and `p ∈ {1/2, 1, 1/4}` (the enumeration q
 theorem tame2_table_counts : Proofs.FromMs.tabCounts = (78, 0, 0, 3) :=
   Proofs.FromMs.tab_counts
 
+/-! ### 12. a third fragment: chains of pulses (`GoodGroup3`)
+
+`GoodGroup` and `GoodGroup2` forbid a move out of a population that received lineages by an `-es` earlier in the
+same time group.  Such a **chain** — `-es 1 p -ej 4 2` (a fraction of population 1 goes to 2) followed by
+`-es 2 p' -ej 5 3` (a fraction of population 2, including what it has just received, goes on to 3) — is what
+`to_ms` prints for two pulses `… → B`, `B → …` at one time, and `from_ms` converts it correctly: both moves end up
+as pulses, and a graph applies the pulses of one time in the order the Builder wrote them, which is command
+order.  What goes wrong in F5 / F21 / F22 is something else: a move out of a population that an `-es` of the same
+group created (it has no row in the Builder's matrix, so no pulse is written for it), and the ancestry of a
+**joined** population (its whole row of the matrix, applied after all pulses) when that population also receives
+lineages in the group.
+
+`GoodGroup3 n cmds` (Spec/C08.lean; decidable): on the moves `groupOps n cmds`, (1) every source existed before the
+group (`sourcesOld`; the population a `-es` creates and the `-ej` right after it joins does not count, `groupOps`
+reads the pair as one admixture); (2) no population joined in the group — the source of a move with `q = 1` — is
+the target of a move of the group (`joinedNeverTarget`); (3) every `-es` has `0 < p ≤ 1`.  No clause about time 0.
+`Tame3 pr`: every time group is a `GoodGroup3`.
+
+`Tame3` contains every command `to_ms` prints for a graph whose pulse proportions are below one (C09 §10).  It does
+not contain `Tame2` (a chain of **joins** `-ej 2 3 -ej 3 1` at one time is in `Tame2` and not in `Tame3`), nor is it
+contained in it (`pulseChain` below); as sets of commands `Tame''` and `Tame3` are incomparable too (`Tame''` contains
+commands the ms interpreter rejects — a join into a population joined earlier in the group — which `Tame3` does not),
+but the proof covers both: `Proofs.FromMs.fromMs_moves_ok` is stated for commands whose every time group satisfies
+the conditions of `GoodGroup12` **or** of `GoodGroup3`. -/
+
+/-- **`applyParams_sem` for `GoodGroup3`** (the group-level encoding lemma): the statement of `applyParams_sem` with
+`GoodGroup3` in place of `GoodGroup`. -/
+theorem applyParams_sem3 (N0 T T' : Q) (s s1 : BState) (g1 : GState) (σ σ1 : St) (L1 : List (Nat × Row))
+    (evs : List (Event Num))
+    (hsim : Proofs.FromMs.SizeSim T s σ) (hT : T ≤ T') (hall : ∀ e ∈ evs, Proofs.FromMs.HasCmd e)
+    (htime : ∀ e ∈ evs, 4 * N0 * (Proofs.FromMs.cmdOfD e).t = T')
+    (hm : evs.foldlM (stepEvent N0 T') (s, { lm := Proofs.FromMs.initLm s evs, params := [] }) = .ok (s1, g1))
+    (hs : (evs.map Proofs.FromMs.cmdOfD).foldlM (MsSem.step N0) (σ, Proofs.FromMs.initL σ) = .ok (σ1, L1))
+    (hgood : GoodGroup3 s.numDemes (evs.map Proofs.FromMs.cmdOfD) = true) (hT0 : T' ≠ 0)
+    (hnames : Proofs.FromMs.NameInv s)
+    (hend : ∀ (j : Nat) (d : BDeme), s.demes[j]? = some d → bEndTime d < T')
+    (hst : ∀ (j : Nat) (d : BDeme), s.demes[j]? = some d → d.startTime = .inf ∨ ∃ t, d.startTime = .fin t ∧ t < T')
+    (hpul : ∀ p ∈ s.pulses.getD [], p.time ≠ T') :
+    ∃ L2, groupMoves (popNames (applyParams T' s1 g1).numDemes) T' (applyParams T' s1 g1).demes
+        ((applyParams T' s1 g1).pulses.getD []) = .ok L2 ∧ canonRows L2 = canonRows L1 :=
+  Proofs.FromMs.applyParams_sem3 hsim hT hall htime hm hs hgood hT0 hnames hend hst hpul
+
+/-- **the lineage movements of `from_ms`, on the fragment `Tame3`** -/
+theorem fromMs_moves3 (c : List String) (N0 : Q) (mg : MsGraph) (sem : DemogSem) (pr : Parsed)
+    (h : fromMs c N0 none = .ok mg) (hsem : msSem c N0 = .ok sem) (hp : parsersAgree c = true)
+    (hpr : parse c = .ok pr) (ht : Tame3 pr = true) :
+    ∃ gsem, resultSem mg = .ok gsem ∧ gsem.moves = sem.moves :=
+  Proofs.FromMs.fromMs_moves_frag3 h hsem hp hpr ht
+
+/-- **C08 on the fragment `Tame3`.**  If `from_ms` returns a graph for the command, the command has a meaning under
+the ms interpreter, the two parsers agree on it and every time group of the command is a `GoodGroup3`, then both
+demographies exist and are equivalent (`SemAgree`: populations, lifetimes, sizes and growth rates at every cut
+point, migration step function, lineage movements). -/
+theorem fromMs_sem3 (c : List String) (N0 : Q) (mg : MsGraph) (sem : DemogSem) (pr : Parsed)
+    (h : fromMs c N0 none = .ok mg) (hsem : msSem c N0 = .ok sem) (hp : parsersAgree c = true)
+    (hpr : parse c = .ok pr) (ht : Tame3 pr = true) :
+    SemAgree (msSem c N0) (resultSem mg) = true :=
+  Proofs.FromMs.fromMs_sem_frag3 h hsem hp hpr ht
+
+/-- the same on plain command lines -/
+theorem fromMs_sem3_plain (c : List String) (N0 : Q) (mg : MsGraph) (sem : DemogSem) (pr : Parsed)
+    (h : fromMs c N0 none = .ok mg) (hsem : msSem c N0 = .ok sem) (hpl : PlainTokens c = true)
+    (hpr : parse c = .ok pr) (ht : Tame3 pr = true) :
+    SemAgree (msSem c N0) (resultSem mg) = true := by
+  obtain ⟨args, _, hargs, _, _⟩ := Proofs.FromMs.fromMs_buildState h
+  exact fromMs_sem3 c N0 mg sem pr h hsem (Proofs.FromMsParse.parsersAgree_of_plain hpl hargs hpr) hpr ht
+
+/-! #### non-vacuity and the boundary of `GoodGroup3` -/
+
+/-- a chain of two pulses at one time (`1 → 2`, then `2 → 3`), and a chain of three pulses followed by a join of the
+first population (a deme with one ancestor whose row feels all three pulses) -/
+def pulseChain : List String :=
+  ["-I", "3", "1", "1", "1", "-es", "1.0", "1", "0.5", "-ej", "1.0", "4", "2", "-es", "1.0", "2", "0.25", "-ej", "1.0", "5", "3"]
+def pulseChainJoin : List String :=
+  ["-I", "4", "1", "1", "1", "1", "-es", "1.0", "1", "0.5", "-ej", "1.0", "5", "2", "-es", "1.0", "2", "0.25", "-ej", "1.0", "6", "3",
+   "-es", "1.0", "3", "0.75", "-ej", "1.0", "7", "4", "-ej", "1.0", "1", "4"]
+
+/-- the moves `groupOps` reads off the group of `pulseChain`: population 2 is a target, then a source -/
+example : groupOps 3 [.split 1 1 (1/2), .join 1 4 2, .split 1 2 (1/4), .join 1 5 3] = [(1, 2, 1/2), (2, 3, 3/4)] := by
+  decide +kernel
+
+/-- **the boundary**: the group shapes of the findings are outside `GoodGroup3` — F5 (a split of the population an
+earlier split of the group created), F21 (interleaved pairs), F22 (a chain of joins followed by a split of its end),
+F6b (`p = 0`); so is a chain of joins (inside `GoodGroup2`); a chain of pulses, and a join followed by a split of its
+target, are inside -/
+example : GoodGroup3 2 [.split 1 2 (1/2), .split 1 3 (1/2)] = false
+    ∧ GoodGroup3 3 [.split 1 2 (3/4), .split 1 1 (1/8), .join 1 4 1, .join 1 5 3] = false
+    ∧ GoodGroup3 3 [.join 1 2 3, .join 1 3 1, .split 1 1 (1/4)] = false
+    ∧ GoodGroup3 2 [.split (3/8) 2 0, .join (3/8) 3 1] = false
+    ∧ GoodGroup3 3 [.join 1 2 3, .join 1 3 1] = false
+    ∧ GoodGroup3 3 [.split 1 1 (1/2), .join 1 4 2, .split 1 2 (1/4), .join 1 5 3] = true
+    ∧ GoodGroup3 2 [.join 1 1 2, .split 1 2 (1/2)] = true := by decide +kernel
+
+/-- the commands: the findings are outside `Tame3`; the chains of pulses are inside `Tame3` and outside `Tame2`;
+`chainSameTime` (a chain of joins) is inside `Tame2` and outside `Tame3`; the other examples of §8, §10, §11 are in both -/
+example : [f5, f21, f22, f6b].map (fun c => (parse c).toOption.map Tame3) = [some false, some false, some false, some false] := by
+  decide +kernel
+example : [pulseChain, pulseChainJoin, chainSameTime, joinThenSplit, threePairs, star, twoAncestors, splitAtZero].map
+    (fun c => (parse c).toOption.map (fun pr => (Tame2 pr, Tame3 pr)))
+    = [some (false, true), some (false, true), some (true, false), some (true, true), some (true, true), some (true, true),
+       some (true, true), some (true, true)] := by decide +kernel
+/-- a command of `Tame''` outside `Tame3`: a join into a population joined earlier in the group; the ms interpreter
+(and `from_ms`) reject it -/
+example : (parse ["-I", "3", "1", "1", "1", "-ej", "1.0", "1", "2", "-ej", "1.0", "3", "1"]).toOption.map (fun pr => (Tame'' pr, Tame3 pr))
+      = some (true, false)
+    ∧ (msSem ["-I", "3", "1", "1", "1", "-ej", "1.0", "1", "2", "-ej", "1.0", "3", "1"] 1).toOption.isSome = false
+    ∧ (fromMs ["-I", "3", "1", "1", "1", "-ej", "1.0", "1", "2", "-ej", "1.0", "3", "1"] 1 none).toOption.isSome = false := by
+  decide +kernel
+
+/-- non-vacuity of `fromMs_sem3_plain`: every hypothesis holds (and so does the conclusion) -/
+def SemHyps3 (c : List String) (N0 : Q) : Bool :=
+  match fromMs c N0 none, msSem c N0, parse c with
+  | .ok mg, .ok sem, .ok pr => PlainTokens c && Tame3 pr && SemAgree (msSem c N0) (resultSem mg) && !sem.moves.isEmpty
+  | _, _, _ => false
+
+example : SemHyps3 pulseChain 1 = true ∧ SemHyps3 pulseChainJoin 2 = true := by decide +kernel
+example : SemHyps3 joinThenSplit 1 = true ∧ SemHyps3 twoAncestors 1 = true := by decide +kernel
+example : SemHyps3 ["-I", "2", "1", "1", "0.5", "-g", "1", "1.0", "-en", "0.5", "1", "2", "-ej", "1.0", "2", "1", "-t", "5", "-T"] 1
+    = true := by decide +kernel
+/-- what `from_ms` writes for `pulseChain`: two pulses, in command order -/
+example : (fromMs pulseChain 1 none).toOption.map (fun mg => mg.doc.pulses.map (fun ps => ps.map (fun p => (p.sources, p.dest, p.proportions))))
+    = some (some [(["deme3"], "deme2", [3/4]), (["deme2"], "deme1", [1/2])]) := by decide +kernel
+
+/-- … and for `pulseChainJoin`: population 1 is joined after the three pulses, its deme gets its whole row (1/8 = 1/2·1/4,
+9/32 = 1/2·3/4·3/4, 19/32 = 1/2 + 1/2·3/4·1/4), the first pulse is folded into it, the other two come back as pulses (the
+real `demes.from_ms` returns the same graph: proportions 0.125, 0.28125, 0.59375) -/
+example : (fromMs pulseChainJoin 2 none).toOption.map (fun mg => mg.graph.demes.map (fun d => (d.name, d.ancestors, d.proportions)))
+    = some [("deme2", [], []), ("deme3", [], []), ("deme4", [], []), ("deme1", ["deme2", "deme3", "deme4"], [1/8, 9/32, 19/32])] := by
+  decide +kernel
+example : (fromMs pulseChainJoin 2 none).toOption.map (fun mg => mg.graph.pulses.map (fun p => (p.sources, p.dest, p.proportions)))
+    = some [(["deme4"], "deme3", [1/4]), (["deme3"], "deme2", [3/4])] := by decide +kernel
+
+/-- **`Tame3` on the small table of §11** (600 commands, 81 accepted by both sides): (inside & correct, inside & wrong,
+outside & correct, outside & wrong); the six correct commands outside are the chains of joins.  Evaluated (compiled
+code, not kernel-checked) on larger enumerations — `-I 3 1 1 1` followed by `k` options out of `-es t i p` (`i ≤ 5`,
+`p ∈ {1/2, 1, 1/4}`) and `-ej t i j` (`i ≠ j ≤ 5`):
+* `t = 1.0`, `k = 2`: 1 225 commands, 252 accepted: (219, 0, 21, 12);
+* `t = 1.0`, `k = 3`: 42 875 commands, 5 208 accepted: (2 874, 0, 1 650, 684); 63 of the commands inside are outside `Tame2`;
+* `t = 1.0`, `k = 4`: 1 500 625 commands, 115 758 accepted: (32 520, 0, 60 450, 22 788); 2 097 inside are outside `Tame2`;
+  with `Tame2 ∪ Tame3`: (36 036, 0, 56 934, 22 788);
+* `t ∈ {0, 1.0, 2.0}`, `k = 3`: 1 157 625 commands, 69 690 accepted: (57 084, 0, 9 114, 3 492). -/
+theorem tame3_table_counts : Proofs.FromMs.tabCounts3 = (72, 0, 6, 3) :=
+  Proofs.FromMs.tab_counts3
+
+/-- on that table every accepted command of `Tame3` is converted correctly (the quantifier is a finite table,
+checked entry by entry by the kernel) -/
+theorem tame3_sound_on_table : ∀ c ∈ Proofs.FromMs.tabCmds, ∀ correct,
+    Proofs.FromMs.tabClass3 c = some (true, correct) → correct = true :=
+  Proofs.FromMs.tab_sound3
+
 /-! ### what is missing
 
 1. `GoodGroup2` (§11) is a sufficient condition, exact for groups of at most two `-es`/`-ej` options over three
    populations (`tame2_exact_on_table`); with three options there are correctly converted groups outside it
    (a move out of a population that received lineages by an `-es`, when the source of that `-es` is joined in
-   the same group, or when both moves end up as pulses in command order; see `tame2_table_counts`);
+   the same group, or when both moves end up as pulses in command order; see `tame2_table_counts`).  The second
+   kind — chains of pulses — is covered by `GoodGroup3` (§12); `GoodGroup2` and `GoodGroup3` are incomparable, and
+   their union is not exact either (`tame3_table_counts`: with four options 56 934 correctly converted commands
+   are outside both);
 2. a command with an `-es` at time 0 is not always rejected (`fromMs_rejects_moves_at_zero_counterexample`); what
    is proved is that every `-ej` at time 0 is, and that on `Tame''` an accepted command has at time 0 nothing
    but `-es 0 i 1` of initial populations; a Model-only statement for `-es` (without the interpreter) is not proved;
